@@ -29,7 +29,8 @@ func TestC14Enum(t *testing.T) {
 					continue
 				}
 				c := &SrvCase{Cfg: c0.Cfg, Script: c0.Script, End: end}
-				c.Cfg.CtxErr = idx%2 == 0 // every other case: callback errors that wrap a context error
+				c.Cfg.CtxErr = idx%2 == 0                                                    // every other case: callback errors that wrap a context error
+				c.Cfg.CutInAuth = idx%5 == 0 && c.Cfg.Transport != "inproc" && end == "wait" // the peer is reset while Authenticate runs
 				o := &Outcome{}
 				var obs *SrvObs
 				rec.Journal(c)
@@ -50,6 +51,9 @@ func TestC14(t *testing.T) {
 	rapid.Check(t, func(rt *rapid.T) {
 		c := genSrvCase(rt, []string{"server"})
 		c.End = rapid.SampledFrom([]string{"eof", "wait", "wait", "silence", "close-now", "cut"}).Draw(rt, "end14")
+		if c.Cfg.Transport != "inproc" && rapid.IntRange(0, 5).Draw(rt, "cutInAuth") == 0 {
+			c.Cfg.CutInAuth = true
+		}
 		o := &Outcome{}
 		rec.Journal(c)
 		w.Case(c)
